@@ -9,6 +9,13 @@ package main
 //   * atomic/*.go: per method the sync/atomic primitives used and whether the field is ever accessed plainly.
 // Anything the extractor does not understand is emitted as an `unrecognised` entry, which makes the Coq
 // obligation `lock_discipline_ok` fail.
+//
+// The lock columns are read PER CONTROL-FLOW PATH (enumeratePaths below), not per source line: a method that
+// unlocks before an early return and again at its end has the lock calls [Lock; Unlock] on each of its paths and is
+// reported that way.  A column gets the common per-path reading only when every path was followed and all paths
+// agree; in every other case (paths disagree, goto, labels, lock calls inside closures or loops, the lock handed to
+// somebody else, ...) the row is the plain source-order reading it always was, marked so that the check fails where
+// that reading alone would not be a proof.
 
 import (
 	"fmt"
@@ -31,6 +38,14 @@ func qpairs(l [][2]string) string {
 	var q []string
 	for _, p := range l {
 		q = append(q, fmt.Sprintf("(\"%s\", \"%s\")", p[0], p[1]))
+	}
+	return "[" + strings.Join(q, "; ") + "]"
+}
+
+func qtriples(l [][3]string) string {
+	var q []string
+	for _, p := range l {
+		q = append(q, fmt.Sprintf("(\"%s\", \"%s\", \"%s\")", p[0], p[1], p[2]))
 	}
 	return "[" + strings.Join(q, "; ") + "]"
 }
@@ -186,13 +201,17 @@ type methodFacts struct {
 	fieldCalls [][2]string
 }
 
-func analyseMethod(m methodDecl, fields map[string]bool, mutexField string) methodFacts {
+// analyseMethod; `wrappers` are the type's own lock wrappers (lockWrappers): recv.w() counts as the mutex call it makes
+func analyseMethod(m methodDecl, fields map[string]bool, mutexField string, wrappers map[string]string) methodFacts {
 	mf := methodFacts{name: m.fd.Name.Name, exported: ast.IsExported(m.fd.Name.Name)}
 	recv := m.recv
 	isMutexCall := func(call *ast.CallExpr) (string, bool) {
 		se, ok := call.Fun.(*ast.SelectorExpr)
 		if !ok {
 			return "", false
+		}
+		if id, ok := se.X.(*ast.Ident); ok && id.Name == recv && wrappers[se.Sel.Name] != "" && len(call.Args) == 0 {
+			return wrappers[se.Sel.Name], true
 		}
 		inner, ok := se.X.(*ast.SelectorExpr)
 		if !ok {
@@ -252,7 +271,11 @@ func analyseMethod(m methodDecl, fields map[string]bool, mutexField string) meth
 					n = "defer " + n
 				}
 				mf.mutexCalls = append(mf.mutexCalls, n)
-				handled[x.Fun.(*ast.SelectorExpr).X.(*ast.SelectorExpr)] = true
+				if inner, ok := x.Fun.(*ast.SelectorExpr).X.(*ast.SelectorExpr); ok {
+					handled[inner] = true
+				} else {
+					handled[x.Fun.(*ast.SelectorExpr)] = true // recv.wrapper()
+				}
 				return true
 			}
 			if se, ok := x.Fun.(*ast.SelectorExpr); ok {
@@ -308,7 +331,46 @@ func analyseMethod(m methodDecl, fields map[string]bool, mutexField string) meth
 		}
 		return true
 	})
+	// The two lock columns, path by path.  Events: the mutex calls and "R" for anything that mentions the receiver.
+	//   mi_mutex_calls       : the lock calls of a path that calls the mutex at all; all such paths must agree.
+	//   mi_rlock_defer_first : every path that mentions the receiver begins RLock(); defer RUnlock() (a path that
+	//                          returns before it touches the receiver needs no lock).
+	// The source-order reading computed above stays when the body cannot be followed: "RLock and the deferred RUnlock
+	// are the first two statements and there is no other mutex call in the text" is a proof on its own.  Disagreeing
+	// paths are marked, so they fail whatever the list looks like.
+	pa := enumeratePaths(lockPathSpec{recv: recv, mutex: mutexField, wrappers: wrappers, tokens: func(n ast.Node) []string {
+		if mentionsIdent(n, recv) {
+			return []string{"R"}
+		}
+		return nil
+	}}, m.fd.Body)
+	if pa.bad == "" {
+		var locking, touching [][]string
+		for _, p := range pa.paths {
+			if hasLockEvent(p) {
+				locking = append(locking, p)
+			}
+			if len(p) > 0 {
+				touching = append(touching, p)
+			}
+		}
+		if seq, ok := commonLockSeq(locking); ok {
+			mf.mutexCalls = seq
+			if !mf.firstTwo && len(locking) > 0 {
+				mf.firstTwo = true
+				for _, p := range touching {
+					if len(p) < 2 || p[0] != "L:RLock" || p[1] != "D:RUnlock" {
+						mf.firstTwo = false
+					}
+				}
+			}
+		} else {
+			mf.mutexCalls = append(mf.mutexCalls, "unrecognised:the paths of the method call the mutex differently")
+			mf.firstTwo = false
+		}
+	}
 	mf.reads, mf.writes, mf.calls, mf.addrTaken = uniq(mf.reads), uniq(mf.writes), uniq(mf.calls), uniq(mf.addrTaken)
+	sort.Strings(mf.writes) // a set: the order in which a method assigns its fields says nothing
 	seenFC := map[[2]string]bool{}
 	var fcs [][2]string
 	for _, fc := range mf.fieldCalls {
@@ -321,7 +383,64 @@ func analyseMethod(m methodDecl, fields map[string]bool, mutexField string) meth
 	return mf
 }
 
-func setterShape(m methodDecl, mutexField string) []string {
+// setterShape: the statements SetNewGasConfig executes, path by path.  Leading `if <no receiver> { return }`
+// statements are "guard"; a path that neither calls the mutex nor mentions the receiver does nothing that matters and
+// is left out; all other paths must execute the same sequence of Lock | Unlock | defer X | assign:<field> |
+// other:<what> (a statement that does not mention the receiver is no event), in the order of EXECUTION: a deferred
+// mutex call stands where it runs, at the end of the path.  When the paths differ, or when the body cannot be
+// followed, the result is the top-level reading, in which every nested statement is an `other:` entry and a deferred
+// call a `defer X` entry.
+func setterShape(m methodDecl, mutexField string, wrappers map[string]string) []string {
+	top := setterShapeTopLevel(m, mutexField, wrappers)
+	recv := m.recv
+	pa := enumeratePaths(lockPathSpec{recv: recv, mutex: mutexField, wrappers: wrappers, tokens: func(n ast.Node) []string {
+		if as, ok := n.(*ast.AssignStmt); ok && len(as.Lhs) == 1 && len(as.Rhs) == 1 && as.Tok == token.ASSIGN {
+			if se, isSel := as.Lhs[0].(*ast.SelectorExpr); isSel {
+				if id, isId := se.X.(*ast.Ident); isId && id.Name == recv && !mentionsIdent(as.Rhs[0], recv) {
+					return []string{"assign:" + se.Sel.Name}
+				}
+			}
+		}
+		if mentionsIdent(n, recv) {
+			return []string{"other:" + nodeKind(n)}
+		}
+		return nil
+	}}, m.fd.Body)
+	if pa.bad != "" {
+		return top
+	}
+	var common []string
+	found := false
+	for _, p := range pa.paths {
+		if len(p) == 0 {
+			continue
+		}
+		var seq []string
+		for _, e := range p {
+			switch {
+			case strings.HasPrefix(e, "L:"), strings.HasPrefix(e, "X:"):
+				seq = append(seq, e[2:])
+			case strings.HasPrefix(e, "D:"):
+			default:
+				seq = append(seq, e)
+			}
+		}
+		if found && !sameStrings(common, seq) {
+			return append(top, "other:the paths of the setter differ")
+		}
+		common, found = seq, true
+	}
+	var shape []string
+	for _, t := range top {
+		if t != "guard" {
+			break
+		}
+		shape = append(shape, t)
+	}
+	return append(shape, common...)
+}
+
+func setterShapeTopLevel(m methodDecl, mutexField string, wrappers map[string]string) []string {
 	var shape []string
 	recv := m.recv
 	mutexCall := func(e ast.Expr) string {
@@ -332,6 +451,9 @@ func setterShape(m methodDecl, mutexField string) []string {
 		se, ok := c.Fun.(*ast.SelectorExpr)
 		if !ok {
 			return ""
+		}
+		if id, ok := se.X.(*ast.Ident); ok && id.Name == recv && wrappers[se.Sel.Name] != "" && len(c.Args) == 0 {
+			return wrappers[se.Sel.Name]
 		}
 		inner, ok := se.X.(*ast.SelectorExpr)
 		if !ok {
@@ -400,10 +522,11 @@ func genLocks(repo, outDir string) {
 	o.p("Record method_info := MI {")
 	o.p("  mi_name : string;")
 	o.p("  mi_exported : bool;")
-	o.p("  mi_mutex_calls : list string;      (* calls on recv.mutExecution, source order; deferred ones as \"defer X\" *)")
-	o.p("  mi_rlock_defer_first : bool;       (* body starts with recv.mutExecution.RLock(); defer recv.mutExecution.RUnlock() *)")
+	o.p("  mi_mutex_calls : list string;      (* calls on recv.mutExecution (also through an own one-line wrapper method) of a path that calls it, deferred ones as \"defer X\";")
+	o.p("                                        when the paths differ: all calls in source order and an \"unrecognised:\" entry *)")
+	o.p("  mi_rlock_defer_first : bool;       (* every path that mentions the receiver starts with recv.mutExecution.RLock(); defer recv.mutExecution.RUnlock() *)")
 	o.p("  mi_reads : list string;            (* receiver fields read (not as call receiver, not as assignment target) *)")
-	o.p("  mi_writes : list string;           (* receiver fields assigned (also through index / sub-field) *)")
+	o.p("  mi_writes : list string;           (* receiver fields assigned (also through index / sub-field), sorted *)")
 	o.p("  mi_calls : list string;            (* recv.m(...) calls; \"escape:f\" when the receiver itself is passed to f; \"go-statement\" *)")
 	o.p("  mi_addr_taken : list string;       (* receiver fields whose address is taken; \"methodvalue:m\" for recv.m not called *)")
 	o.p("  mi_field_calls : list (string * string) (* recv.field.M(...) : (field, M) *)")
@@ -413,7 +536,8 @@ func genLocks(repo, outDir string) {
 	o.p("  et_file : string;")
 	o.p("  et_fields : list (string * string);      (* struct fields (name, type); embedded ones named after their type *)")
 	o.p("  et_has_process : bool;                   (* has a ProcessBuiltinFunction method *)")
-	o.p("  et_setter_shape : list string;           (* top-level statements of SetNewGasConfig: guard | Lock | Unlock | assign:<field> | other:<what> *)")
+	o.p("  et_setter_shape : list string;           (* what SetNewGasConfig executes, in that order, on every path that touches the receiver: guard | Lock | Unlock | assign:<field> | other:<what>;")
+	o.p("                                              its top-level statements and an other: entry when the paths differ *)")
 	o.p("  et_methods : list method_info;")
 	o.p("  et_external_refs : list (string * string) (* (unexported method, where) referenced outside the type's own methods *)")
 	o.p("}.")
@@ -533,14 +657,21 @@ func genLocks(repo, outDir string) {
 		hasProcess := false
 		var shape []string
 		var infos []string
+		// own unexported methods that do nothing but one call on the receiver's mutExecution are read as that call where
+		// they are called; they are no rows (nothing in them needs a discipline), but stay known to the reference scan
+		// above, so a use from outside the type's methods is still an et_external_refs entry
+		wrappers := lockWrappers(ms, "mutExecution")
 		for _, m := range ms {
+			if wrappers[m.fd.Name.Name] != "" {
+				continue
+			}
 			if m.fd.Name.Name == "ProcessBuiltinFunction" {
 				hasProcess = true
 			}
 			if m.fd.Name.Name == "SetNewGasConfig" {
-				shape = setterShape(m, "mutExecution")
+				shape = setterShape(m, "mutExecution", wrappers)
 			}
-			mf := analyseMethod(m, fields, "mutExecution")
+			mf := analyseMethod(m, fields, "mutExecution", wrappers)
 			infos = append(infos, fmt.Sprintf("      MI \"%s\" %s %s %s %s %s %s %s %s", mf.name, cb(mf.exported), qs(mf.mutexCalls), cb(mf.firstTwo),
 				qs(mf.reads), qs(mf.writes), qs(mf.calls), qs(mf.addrTaken), qpairs(mf.fieldCalls)))
 		}
@@ -556,12 +687,25 @@ func genLocks(repo, outDir string) {
 	o.p("].")
 	o.p("")
 
+	// ---- where the mutExecution of a type comes from ----
+	o.p("(* ---- builtInFunctions: every place where a value of a type with a `mutExecution` field comes into being, or where such a")
+	o.p("        field is used other than through the receiver of one of the type's own methods: (type, enclosing function, what)")
+	o.p("          literal:init-value    T{..., mutExecution: sync.RWMutex{}, ...}")
+	o.p("          literal:init-pointer  T{..., mutExecution: &sync.RWMutex{}, ...}   (or new(sync.RWMutex)): a fresh mutex of its own")
+	o.p("          literal:missing       T{...} without the field: the zero value (a ready sync.RWMutex, a nil *sync.RWMutex)")
+	o.p("          literal:other         T{..., mutExecution: <anything else>, ...}, or a literal with positional fields")
+	o.p("          zero:<where>          the type named other than as *T, as a receiver or as the type of a literal (new(T), var x T,")
+	o.p("                                []T, a field or parameter of type T, a conversion, ...): a value may be created with zero fields")
+	o.p("          foreign-use           x.mutExecution where x is not the receiver of a method of the type (type \"*\": whichever type x has) ---- *)")
+	o.p("Definition mutex_sites : list (string * string * string) := %s.", qtriples(mutexSites(bif, structs, tnames, "mutExecution")))
+	o.p("")
+
 	// ---- container/mutexMap.go ----
 	o.p("(* ---- container/mutexMap.go ---- *)")
 	o.p("Record mm_method := MM {")
 	o.p("  mm_name : string;")
-	o.p("  mm_lock_calls : list string;     (* calls on mm.mut, source order; deferred ones as \"defer X\" *)")
-	o.p("  mm_bracketed : bool;             (* top level: lock statement, then every statement touching `values`, then unlock (or defer unlock right after the lock); no return in between unless deferred *)")
+	o.p("  mm_lock_calls : list string;     (* calls on mm.mut of every path that locks or touches `values`, deferred ones as \"defer X\"; when the paths differ or cannot be followed: all calls in source order *)")
+	o.p("  mm_bracketed : bool;             (* every such path: one lock, every use of `values` after it, then the matching unlock exactly once (by a call, or by a defer) before the method returns *)")
 	o.p("  mm_writes_values : bool;         (* assigns an element of `values` or deletes from it *)")
 	o.p("  mm_reads_values : bool;")
 	o.p("  mm_values_other_use : bool       (* `values` used other than values[k], len(values), delete(values,k), range values *)")
@@ -575,11 +719,23 @@ func genLocks(repo, outDir string) {
 	}
 	o.p("Definition mutexmap_methods : list mm_method := [")
 	var mmInfos []string
+	var mmMethods []methodDecl
 	for _, m := range methodsOf(cont) {
-		if m.typ != "MutexMap" {
+		if m.typ == "MutexMap" {
+			mmMethods = append(mmMethods, m)
+		}
+	}
+	// lock wrappers of the map (see lockWrappers) are read at their call sites and are no rows — unless one is used
+	// anywhere but as  recv.w  inside a method of the map: then it stays an ordinary method, and its row fails
+	mmWrappers := lockWrappers(mmMethods, "mut")
+	for _, ref := range selectorRefsOutside(cont, "MutexMap", mmWrappers) {
+		delete(mmWrappers, ref)
+	}
+	for _, m := range mmMethods {
+		if mmWrappers[m.fd.Name.Name] != "" {
 			continue
 		}
-		mmInfos = append(mmInfos, analyseMapMethod(m))
+		mmInfos = append(mmInfos, analyseMapMethod(m, mmWrappers))
 	}
 	o.p("%s", strings.Join(mmInfos, ";\n"))
 	o.p("].")
@@ -643,7 +799,7 @@ func genLocks(repo, outDir string) {
 	o.p("  am_prims : list string;        (* sync/atomic primitives applied to &recv.value (atomic.Value: value.Store / value.Load), source order *)")
 	o.p("  am_self_calls : list string;   (* calls to the type's own methods *)")
 	o.p("  am_plain_access : bool;        (* recv.value used other than as &recv.value argument of an atomic primitive / receiver of Store,Load *)")
-	o.p("  am_exclusive : bool            (* more than one call only as `if c { one call } else { one call }` *)")
+	o.p("  am_exclusive : bool            (* no path through the method performs more than one primitive / call of an own method *)")
 	o.p("}.")
 	at := loadPkg(filepath.Join(repo, "atomic"))
 	astructs := structsOf(at)
@@ -674,7 +830,7 @@ func genLocks(repo, outDir string) {
 	writeIfChanged(filepath.Join(outDir, "LockDiscipline.v"), o.buf.Bytes())
 }
 
-func analyseMapMethod(m methodDecl) string {
+func analyseMapMethod(m methodDecl, wrappers map[string]string) string {
 	recv := m.recv
 	lockName := func(e ast.Expr) string {
 		c, ok := e.(*ast.CallExpr)
@@ -684,6 +840,9 @@ func analyseMapMethod(m methodDecl) string {
 		se, ok := c.Fun.(*ast.SelectorExpr)
 		if !ok {
 			return ""
+		}
+		if id, ok := se.X.(*ast.Ident); ok && id.Name == recv && wrappers[se.Sel.Name] != "" {
+			return wrappers[se.Sel.Name]
 		}
 		inner, ok := se.X.(*ast.SelectorExpr)
 		if !ok {
@@ -712,17 +871,7 @@ func analyseMapMethod(m methodDecl) string {
 		})
 		return f
 	}
-	hasReturn := func(n ast.Node) bool {
-		f := false
-		ast.Inspect(n, func(k ast.Node) bool {
-			if _, ok := k.(*ast.ReturnStmt); ok {
-				f = true
-			}
-			return true
-		})
-		return f
-	}
-	// all lock calls in source order
+	// all lock calls in source order: the reading that is emitted when the paths cannot be told apart
 	var lockCalls []string
 	deferred := map[*ast.CallExpr]bool{}
 	ast.Inspect(m.fd.Body, func(n ast.Node) bool {
@@ -739,53 +888,35 @@ func analyseMapMethod(m methodDecl) string {
 		}
 		return true
 	})
-	// bracket check on the top-level statement list
-	lockIdx, unlockIdx, deferIdx := -1, -1, -1
-	for i, st := range m.fd.Body.List {
-		switch x := st.(type) {
-		case *ast.ExprStmt:
-			switch lockName(x.X) {
-			case "Lock", "RLock":
-				if lockIdx < 0 {
-					lockIdx = i
-				}
-			case "Unlock", "RUnlock":
-				if unlockIdx < 0 {
-					unlockIdx = i
-				}
-			}
-		case *ast.DeferStmt:
-			switch lockName(x.Call) {
-			case "Unlock", "RUnlock":
-				if deferIdx < 0 {
-					deferIdx = i
-				}
+	// path by path: events are the calls on mm.mut and "A" for anything that touches `values`.
+	//   lock_calls : what a path that does anything executes, when all such paths execute the same calls;
+	//   bracketed  : on EVERY path there is one lock, released exactly once (by a call or by a defer, with the matching
+	//                unlock) before the method returns, and every "A" lies between the two.
+	// A path that neither locks nor touches `values` (an argument check that returns early) is left out.
+	pa := enumeratePaths(lockPathSpec{recv: recv, mutex: "mut", wrappers: wrappers, tokens: func(n ast.Node) []string {
+		if touches(n) {
+			return []string{"A"}
+		}
+		return nil
+	}}, m.fd.Body)
+	bracketed := false
+	if pa.bad != "" {
+		lockCalls = append(lockCalls, "unrecognised:"+pa.bad)
+	} else {
+		var acting [][]string
+		for _, p := range pa.paths {
+			if len(p) > 0 {
+				acting = append(acting, p)
 			}
 		}
-	}
-	bracketed := lockIdx >= 0 && len(lockCalls) == 2
-	if bracketed {
-		if deferIdx >= 0 {
-			bracketed = deferIdx == lockIdx+1 && unlockIdx < 0
-		} else {
-			bracketed = unlockIdx > lockIdx
-		}
-	}
-	for i, st := range m.fd.Body.List {
-		if i == lockIdx || i == unlockIdx || i == deferIdx {
-			continue
-		}
-		if touches(st) {
-			if deferIdx >= 0 {
-				if i < deferIdx {
+		if seq, ok := commonLockSeq(acting); ok {
+			lockCalls = seq
+			bracketed = len(acting) > 0
+			for _, p := range acting {
+				if !pathBracketed(p) {
 					bracketed = false
 				}
-			} else if !(i > lockIdx && i < unlockIdx) {
-				bracketed = false
 			}
-		}
-		if deferIdx < 0 && i > lockIdx && i < unlockIdx && hasReturn(st) {
-			bracketed = false // a return between Lock and Unlock would leave the lock held
 		}
 	}
 	// classify the uses of `values`
@@ -890,15 +1021,710 @@ func analyseAtomicMethod(m methodDecl) string {
 		}
 		return true
 	})
-	exclusive := len(prims)+len(self) <= 1
-	if !exclusive && len(m.fd.Body.List) == 1 {
-		if is, ok := m.fd.Body.List[0].(*ast.IfStmt); ok && is.Init == nil && is.Else != nil {
-			if eb, ok := is.Else.(*ast.BlockStmt); ok && len(is.Body.List) == 1 && len(eb.List) == 1 && len(prims)+len(self) == 2 {
-				_, ok1 := is.Body.List[0].(*ast.ExprStmt)
-				_, ok2 := eb.List[0].(*ast.ExprStmt)
-				exclusive = ok1 && ok2
+	// am_exclusive, path by path: no path through the body performs more than one operation (a primitive on the field
+	// or a call of one of the type's own methods).  The operations are counted where they stand in the expressions;
+	// one in a loop, in a closure or in a go statement cannot be followed, and a body that cannot be followed is not
+	// exclusive.
+	isOp := func(k ast.Node) bool {
+		call, ok := k.(*ast.CallExpr)
+		if !ok {
+			return false
+		}
+		se, ok := call.Fun.(*ast.SelectorExpr)
+		if !ok {
+			return false
+		}
+		if id, ok := se.X.(*ast.Ident); ok && (id.Name == "atomic" || id.Name == recv) {
+			return true
+		}
+		return isValue(se.X) != nil
+	}
+	pa := enumeratePaths(lockPathSpec{recv: recv, count: true, tokens: func(n ast.Node) []string {
+		var ops []string
+		ast.Inspect(n, func(k ast.Node) bool {
+			if k != nil && isOp(k) {
+				ops = append(ops, "op")
 			}
+			return true
+		})
+		return ops
+	}}, m.fd.Body)
+	exclusive := pa.bad == ""
+	for _, p := range pa.paths {
+		if len(p) > 1 {
+			exclusive = false
 		}
 	}
 	return fmt.Sprintf("      AM \"%s\" %s %s %s %s", m.fd.Name.Name, qs(prims), qs(self), cb(plain), cb(exclusive))
+}
+
+// ---------------------------------------------------------------- control-flow paths of a method body
+//
+// enumeratePaths follows a body statement by statement and returns, per control-flow path, the events it executes:
+//
+//	"L:<M>"  the statement  recv.<mutex>.<M>()
+//	"D:<M>"  the statement  defer recv.<mutex>.<M>()          (the registration)
+//	"X:<M>"  a deferred recv.<mutex>.<M>() running: at every return and at the end of the body, last registered first
+//	<token>  whatever spec.tokens reports for a statement without control flow or for an expression (condition,
+//	         switch tag, case expression, range operand, return values); equal tokens in a row are kept once
+//
+// if / else, switch, type switch and select branch; break and continue (without label) are followed; a loop body is
+// taken zero times or once.  That is enough because a loop that mentions the mutex is not followed at all: with no
+// lock call inside, every iteration runs with the lock state of the first one, so each token of a later iteration has
+// the same place between the lock events as on the one-iteration path through the same statements.  Paths that
+// execute the same events are one path.
+//
+// With spec.count the tokens are operations to be counted (the atomic primitives of atomic/*.go): equal tokens in a
+// row are two operations, and a loop that contains one is not followed.
+//
+// `bad` says why a body could not be followed: goto, labels, fallthrough, a mutex call in a loop, in a closure or in a
+// go statement, the mutex mentioned in any way other than as the receiver of a call that is a statement of its own
+// (handed over, copied, method value), a token inside a closure or a go statement (nobody knows when that runs), more
+// distinct paths than maxPathStates.  Callers must not draw a positive conclusion from the paths of a bad body.
+type lockPathSpec struct {
+	recv     string
+	mutex    string            // "" : no mutex, only tokens
+	wrappers map[string]string // own methods that are one mutex call (lockWrappers): recv.w() is read as recv.<mutex>.<M>()
+	tokens   func(n ast.Node) []string
+	count    bool // the tokens are counted: equal tokens in a row stay apart, and a token inside a loop cannot be followed
+}
+
+type pathState struct {
+	ev     []string
+	defers []string // registered deferred mutex calls, oldest first
+}
+
+type pathSet struct {
+	paths [][]string
+	bad   string
+}
+
+const maxPathStates = 4096
+
+type pathWalker struct {
+	lockPathSpec
+	bad      string
+	done     [][]string
+	doneSeen map[string]bool
+}
+
+func isLockEvent(e string) bool {
+	return strings.HasPrefix(e, "L:") || strings.HasPrefix(e, "D:") || strings.HasPrefix(e, "X:")
+}
+
+func hasLockEvent(p []string) bool {
+	for _, e := range p {
+		if isLockEvent(e) {
+			return true
+		}
+	}
+	return false
+}
+
+func sameStrings(a, b []string) bool {
+	if len(a) != len(b) {
+		return false
+	}
+	for i := range a {
+		if a[i] != b[i] {
+			return false
+		}
+	}
+	return true
+}
+
+// lockSeq: the mutex calls of a path the way the tables write them (a deferred call at the place of its registration)
+func lockSeq(p []string) []string {
+	var seq []string
+	for _, e := range p {
+		switch {
+		case strings.HasPrefix(e, "L:"):
+			seq = append(seq, e[2:])
+		case strings.HasPrefix(e, "D:"):
+			seq = append(seq, "defer "+e[2:])
+		}
+	}
+	return seq
+}
+
+// commonLockSeq: the lockSeq all the given paths share; (nil, true) for no path at all
+func commonLockSeq(paths [][]string) ([]string, bool) {
+	var common []string
+	for i, p := range paths {
+		seq := lockSeq(p)
+		if i > 0 && !sameStrings(common, seq) {
+			return nil, false
+		}
+		common = seq
+	}
+	return common, true
+}
+
+// pathBracketed: the path takes the lock once, gives it back exactly once with the matching call before it ends, and
+// every other event (an access to the guarded state) lies in between
+func pathBracketed(p []string) bool {
+	held, taken := "", 0
+	for _, e := range p {
+		switch e {
+		case "L:Lock", "L:RLock":
+			if held != "" {
+				return false
+			}
+			held = e[2:]
+			taken++
+		case "L:Unlock", "X:Unlock":
+			if held != "Lock" {
+				return false
+			}
+			held = ""
+		case "L:RUnlock", "X:RUnlock":
+			if held != "RLock" {
+				return false
+			}
+			held = ""
+		case "D:Unlock", "D:RUnlock":
+		default:
+			if isLockEvent(e) || held == "" {
+				return false // an unknown mutex method, or an access outside the lock
+			}
+		}
+	}
+	return held == "" && taken == 1
+}
+
+func mentionsIdent(n ast.Node, name string) bool {
+	found := false
+	ast.Inspect(n, func(k ast.Node) bool {
+		if id, ok := k.(*ast.Ident); ok && id.Name == name {
+			found = true
+		}
+		return !found
+	})
+	return found
+}
+
+func nodeKind(n ast.Node) string {
+	switch n.(type) {
+	case *ast.AssignStmt:
+		return "assign"
+	case *ast.ExprStmt:
+		return "expr"
+	case *ast.DeferStmt:
+		return "defer"
+	case *ast.ReturnStmt:
+		return "return"
+	case *ast.IncDecStmt:
+		return "incdec"
+	case *ast.DeclStmt:
+		return "decl"
+	case *ast.SendStmt:
+		return "send"
+	case *ast.BlockStmt:
+		return "closure"
+	case ast.Expr:
+		return "condition"
+	}
+	return fmt.Sprintf("%T", n)
+}
+
+func enumeratePaths(spec lockPathSpec, body *ast.BlockStmt) pathSet {
+	w := &pathWalker{lockPathSpec: spec, doneSeen: map[string]bool{}}
+	next, _, _ := w.block(body.List, []pathState{{}})
+	w.finish(next)
+	return pathSet{paths: w.done, bad: w.bad}
+}
+
+func (w *pathWalker) fail(why string) {
+	if w.bad == "" {
+		w.bad = why
+	}
+}
+
+// isMutex: recv.<mutex>, or recv.<wrapper> (calling a wrapper is using the mutex)
+func (w *pathWalker) isMutex(e ast.Node) bool {
+	se, ok := e.(*ast.SelectorExpr)
+	if !ok {
+		return false
+	}
+	id, ok := se.X.(*ast.Ident)
+	return ok && id.Name == w.recv && w.mutex != "" && (se.Sel.Name == w.mutex || w.wrappers[se.Sel.Name] != "")
+}
+
+func (w *pathWalker) mentionsMutex(n ast.Node) bool {
+	found := false
+	ast.Inspect(n, func(k ast.Node) bool {
+		if k != nil && w.isMutex(k) {
+			found = true
+		}
+		return !found
+	})
+	return found
+}
+
+// lockCall: recv.<mutex>.<M>()  ->  M ;  recv.<wrapper>()  ->  the M the wrapper calls
+func (w *pathWalker) lockCall(e ast.Expr) string {
+	c, ok := e.(*ast.CallExpr)
+	if !ok || len(c.Args) != 0 || w.mutex == "" {
+		return ""
+	}
+	se, ok := c.Fun.(*ast.SelectorExpr)
+	if !ok {
+		return ""
+	}
+	if id, ok := se.X.(*ast.Ident); ok && id.Name == w.recv {
+		return w.wrappers[se.Sel.Name]
+	}
+	if inner, ok := se.X.(*ast.SelectorExpr); ok && w.isMutex(inner) && inner.Sel.Name == w.mutex {
+		return se.Sel.Name
+	}
+	return ""
+}
+
+func stateKey(p pathState) string {
+	return strings.Join(p.ev, "\x00") + "\x01" + strings.Join(p.defers, "\x00")
+}
+
+func (w *pathWalker) merge(sets ...[]pathState) []pathState {
+	var out []pathState
+	seen := map[string]bool{}
+	for _, set := range sets {
+		for _, p := range set {
+			k := stateKey(p)
+			if !seen[k] {
+				seen[k] = true
+				out = append(out, p)
+			}
+		}
+	}
+	if len(out) > maxPathStates {
+		w.fail("too many paths")
+		out = out[:1]
+	}
+	return out
+}
+
+func (w *pathWalker) add(in []pathState, toks ...string) []pathState {
+	if len(toks) == 0 {
+		return in
+	}
+	var out []pathState
+	for _, p := range in {
+		ev := append([]string(nil), p.ev...)
+		for _, t := range toks {
+			if len(ev) > 0 && ev[len(ev)-1] == t && !isLockEvent(t) && !w.count {
+				continue
+			}
+			ev = append(ev, t)
+		}
+		out = append(out, pathState{ev: ev, defers: p.defers})
+	}
+	return w.merge(out)
+}
+
+// simple: a statement without control flow of its own, or an expression
+func (w *pathWalker) simple(n ast.Node, in []pathState) []pathState {
+	switch x := n.(type) {
+	case nil:
+		return in
+	case ast.Expr:
+		if x == nil {
+			return in
+		}
+	case ast.Stmt:
+		if x == nil {
+			return in
+		}
+	}
+	ast.Inspect(n, func(k ast.Node) bool {
+		if k == nil {
+			return true
+		}
+		if fl, ok := k.(*ast.FuncLit); ok {
+			if w.mentionsMutex(fl) {
+				w.fail("the lock is used inside a closure")
+			} else if len(w.tokens(fl.Body)) > 0 {
+				w.fail("guarded state is used inside a closure")
+			}
+			return false
+		}
+		if w.isMutex(k) {
+			w.fail("the lock is used other than by a call that is a statement of its own")
+		}
+		return true
+	})
+	return w.add(in, w.tokens(n)...)
+}
+
+func (w *pathWalker) finish(states []pathState) {
+	for _, p := range states {
+		ev := append([]string(nil), p.ev...)
+		for i := len(p.defers) - 1; i >= 0; i-- {
+			ev = append(ev, "X:"+p.defers[i])
+		}
+		k := strings.Join(ev, "\x00")
+		if !w.doneSeen[k] {
+			w.doneSeen[k] = true
+			w.done = append(w.done, ev)
+		}
+	}
+	if len(w.done) > maxPathStates {
+		w.fail("too many paths")
+	}
+}
+
+func (w *pathWalker) block(list []ast.Stmt, in []pathState) (next, brk, cont []pathState) {
+	next = in
+	for _, s := range list {
+		if len(next) == 0 {
+			break // not reachable
+		}
+		var b, c []pathState
+		next, b, c = w.stmt(s, next)
+		brk, cont = w.merge(brk, b), w.merge(cont, c)
+	}
+	return next, brk, cont
+}
+
+// stmt: the states that go on after s, those that leave the enclosing loop / switch / select by `break`, and those
+// that `continue` the enclosing loop; paths that return are closed by finish
+func (w *pathWalker) stmt(s ast.Stmt, in []pathState) (next, brk, cont []pathState) {
+	if len(in) == 0 {
+		return nil, nil, nil
+	}
+	switch x := s.(type) {
+	case nil:
+		return in, nil, nil
+	case *ast.BlockStmt:
+		return w.block(x.List, in)
+	case *ast.ExprStmt:
+		if m := w.lockCall(x.X); m != "" {
+			return w.add(in, "L:"+m), nil, nil
+		}
+		return w.simple(x, in), nil, nil
+	case *ast.DeferStmt:
+		if m := w.lockCall(x.Call); m != "" {
+			var out []pathState
+			for _, p := range w.add(in, "D:"+m) {
+				out = append(out, pathState{ev: p.ev, defers: append(append([]string(nil), p.defers...), m)})
+			}
+			return w.merge(out), nil, nil
+		}
+		// any other deferred call: the function value and the arguments are evaluated here; a closure is checked by simple
+		return w.simple(x, in), nil, nil
+	case *ast.GoStmt:
+		if w.mentionsMutex(x) {
+			w.fail("the lock is used in a go statement")
+		} else if len(w.tokens(x)) > 0 {
+			w.fail("guarded state is used in a go statement")
+		}
+		return in, nil, nil
+	case *ast.ReturnStmt:
+		w.finish(w.simple(x, in))
+		return nil, nil, nil
+	case *ast.IfStmt:
+		cur, _, _ := w.stmt(x.Init, in)
+		cur = w.simple(x.Cond, cur)
+		t, b1, c1 := w.block(x.Body.List, cur)
+		e, b2, c2 := cur, []pathState(nil), []pathState(nil)
+		if x.Else != nil {
+			e, b2, c2 = w.stmt(x.Else, cur)
+		}
+		return w.merge(t, e), w.merge(b1, b2), w.merge(c1, c2)
+	case *ast.ForStmt:
+		cur, _, _ := w.stmt(x.Init, in)
+		if w.mentionsMutex(x.Body) || (x.Cond != nil && w.mentionsMutex(x.Cond)) || (x.Post != nil && w.mentionsMutex(x.Post)) {
+			w.fail("the lock is used inside a loop")
+			return cur, nil, nil
+		}
+		if w.count && (len(w.tokens(x.Body)) > 0 || (x.Cond != nil && len(w.tokens(x.Cond)) > 0) || (x.Post != nil && len(w.tokens(x.Post)) > 0)) {
+			w.fail("a counted operation inside a loop")
+		}
+		cur = w.simple(x.Cond, cur)
+		body, b, c := w.block(x.Body.List, cur)
+		again, _, _ := w.stmt(x.Post, w.merge(body, c))
+		again = w.simple(x.Cond, again)
+		if x.Cond == nil {
+			return b, nil, nil // `for { ... }` is left by break (or return) only
+		}
+		return w.merge(cur, again, b), nil, nil
+	case *ast.RangeStmt:
+		if w.mentionsMutex(x.Body) || (x.Key != nil && w.mentionsMutex(x.Key)) || (x.Value != nil && w.mentionsMutex(x.Value)) {
+			w.fail("the lock is used inside a loop")
+			return in, nil, nil
+		}
+		if w.count && (len(w.tokens(x.Body)) > 0 || (x.Key != nil && len(w.tokens(x.Key)) > 0) || (x.Value != nil && len(w.tokens(x.Value)) > 0)) {
+			w.fail("a counted operation inside a loop")
+		}
+		cur := w.simple(x.X, in)
+		it := w.simple(x.Value, w.simple(x.Key, cur))
+		body, b, c := w.block(x.Body.List, it)
+		return w.merge(cur, body, c, b), nil, nil
+	case *ast.SwitchStmt:
+		cur, _, _ := w.stmt(x.Init, in)
+		cur = w.simple(x.Tag, cur)
+		var def *ast.CaseClause
+		for _, cl := range x.Body.List {
+			cc := cl.(*ast.CaseClause)
+			if cc.List == nil {
+				def = cc
+				continue
+			}
+			for _, e := range cc.List {
+				cur = w.simple(e, cur) // the case expressions are evaluated top to bottom until one matches
+			}
+			n, b, c := w.block(cc.Body, cur)
+			next, cont = w.merge(next, n, b), w.merge(cont, c)
+		}
+		if def != nil {
+			n, b, c := w.block(def.Body, cur)
+			next, cont = w.merge(next, n, b), w.merge(cont, c)
+		} else {
+			next = w.merge(next, cur)
+		}
+		return next, nil, cont
+	case *ast.TypeSwitchStmt:
+		cur, _, _ := w.stmt(x.Init, in)
+		cur, _, _ = w.stmt(x.Assign, cur)
+		hasDefault := false
+		for _, cl := range x.Body.List {
+			cc := cl.(*ast.CaseClause)
+			if cc.List == nil {
+				hasDefault = true
+			}
+			n, b, c := w.block(cc.Body, cur)
+			next, cont = w.merge(next, n, b), w.merge(cont, c)
+		}
+		if !hasDefault {
+			next = w.merge(next, cur)
+		}
+		return next, nil, cont
+	case *ast.SelectStmt:
+		for _, cl := range x.Body.List {
+			cc := cl.(*ast.CommClause)
+			cur, _, _ := w.stmt(cc.Comm, in)
+			n, b, c := w.block(cc.Body, cur)
+			next, cont = w.merge(next, n, b), w.merge(cont, c)
+		}
+		return next, nil, cont
+	case *ast.BranchStmt:
+		switch {
+		case x.Label != nil:
+			w.fail("a labelled " + x.Tok.String())
+		case x.Tok == token.BREAK:
+			return nil, in, nil
+		case x.Tok == token.CONTINUE:
+			return nil, nil, in
+		default:
+			w.fail(x.Tok.String())
+		}
+		return nil, nil, nil
+	case *ast.LabeledStmt:
+		w.fail("a label")
+		return w.stmt(x.Stmt, in)
+	}
+	// assignments, declarations, inc/dec, send, empty statement
+	return w.simple(s, in), nil, nil
+}
+
+// lockWrappers: the methods among ms (the methods of ONE type) that are nothing but a call on the receiver's own mutex:
+//
+//	func (r *T) name() { r.<mutexField>.<Lock|Unlock|RLock|RUnlock>() }
+//
+// unexported (an exported one can be called by anybody), pointer receiver (a value receiver would lock the mutex of a
+// copy), no parameters, no results, the mutex reached through the method's own receiver and nothing else in the body.
+// name -> the mutex method it calls.
+func lockWrappers(ms []methodDecl, mutexField string) map[string]string {
+	out := map[string]string{}
+	for _, m := range ms {
+		fd := m.fd
+		if ast.IsExported(fd.Name.Name) || m.recv == "_" || len(fd.Body.List) != 1 {
+			continue
+		}
+		if _, ptr := fd.Recv.List[0].Type.(*ast.StarExpr); !ptr {
+			continue
+		}
+		if fd.Type.Params.NumFields() != 0 || fd.Type.Results.NumFields() != 0 || fd.Type.TypeParams != nil {
+			continue
+		}
+		es, ok := fd.Body.List[0].(*ast.ExprStmt)
+		if !ok {
+			continue
+		}
+		call, ok := es.X.(*ast.CallExpr)
+		if !ok || len(call.Args) != 0 {
+			continue
+		}
+		se, ok := call.Fun.(*ast.SelectorExpr)
+		if !ok {
+			continue
+		}
+		inner, ok := se.X.(*ast.SelectorExpr)
+		if !ok || inner.Sel.Name != mutexField {
+			continue
+		}
+		if id, ok := inner.X.(*ast.Ident); !ok || id.Name != m.recv {
+			continue
+		}
+		switch se.Sel.Name {
+		case "Lock", "Unlock", "RLock", "RUnlock":
+			out[fd.Name.Name] = se.Sel.Name
+		}
+	}
+	return out
+}
+
+// selectorRefsOutside: which of the given method names of type typ are mentioned as a selector `x.name` anywhere in
+// the package other than as `recv.name` inside a method of typ (recv = that method's receiver)
+func selectorRefsOutside(pi *pkgInfo, typ string, names map[string]string) []string {
+	found := map[string]bool{}
+	for _, f := range pi.files {
+		for _, d := range f.Decls {
+			recv := ""
+			if fd, ok := d.(*ast.FuncDecl); ok && fd.Recv != nil && len(fd.Recv.List) == 1 && len(fd.Recv.List[0].Names) == 1 &&
+				strings.TrimPrefix(typeString(fd.Recv.List[0].Type), "*") == typ {
+				recv = fd.Recv.List[0].Names[0].Name
+			}
+			ast.Inspect(d, func(n ast.Node) bool {
+				se, ok := n.(*ast.SelectorExpr)
+				if !ok || names[se.Sel.Name] == "" {
+					return true
+				}
+				if id, ok := se.X.(*ast.Ident); ok && recv != "" && id.Name == recv {
+					return true
+				}
+				found[se.Sel.Name] = true
+				return true
+			})
+		}
+	}
+	var out []string
+	for n := range found {
+		out = append(out, n)
+	}
+	sort.Strings(out)
+	return out
+}
+
+// mutexSites: see the comment emitted in front of `mutex_sites`.  Purely syntactic (no type information): an
+// identifier that has the name of one of the types counts as that type wherever it stands.
+func mutexSites(pi *pkgInfo, structs map[string]*structInfo, tnames []string, mutexField string) [][3]string {
+	guarded := map[string]bool{} // the types of interest that have the field
+	for _, t := range tnames {
+		if si := structs[t]; si != nil {
+			for _, f := range si.fields {
+				if f[0] == mutexField {
+					guarded[t] = true
+				}
+			}
+		}
+	}
+	isSyncRW := func(e ast.Expr) bool {
+		cl, ok := e.(*ast.CompositeLit)
+		return ok && len(cl.Elts) == 0 && cl.Type != nil && typeString(cl.Type) == "sync.RWMutex"
+	}
+	initKind := func(v ast.Expr) string {
+		if isSyncRW(v) {
+			return "literal:init-value"
+		}
+		if u, ok := v.(*ast.UnaryExpr); ok && u.Op == token.AND && isSyncRW(u.X) {
+			return "literal:init-pointer"
+		}
+		if c, ok := v.(*ast.CallExpr); ok && len(c.Args) == 1 {
+			if id, ok := c.Fun.(*ast.Ident); ok && id.Name == "new" && typeString(c.Args[0]) == "sync.RWMutex" {
+				return "literal:init-pointer"
+			}
+		}
+		return "literal:other"
+	}
+	var out [][3]string
+	var fnames []string
+	for n := range pi.files {
+		fnames = append(fnames, n)
+	}
+	sort.Strings(fnames)
+	for _, fname := range fnames {
+		for _, d := range pi.files[fname].Decls {
+			where, recv, rtyp := "package level of "+fname, "", ""
+			skip := map[*ast.Ident]bool{} // mentions of a type name that create nothing
+			if fd, ok := d.(*ast.FuncDecl); ok {
+				where = fd.Name.Name
+				if fd.Recv != nil && len(fd.Recv.List) == 1 {
+					rt := fd.Recv.List[0].Type
+					rtyp = strings.TrimPrefix(typeString(rt), "*")
+					where = rtyp + "." + where
+					if len(fd.Recv.List[0].Names) == 1 {
+						recv = fd.Recv.List[0].Names[0].Name
+					}
+					if id, ok := rt.(*ast.Ident); ok {
+						skip[id] = true
+					}
+				}
+			}
+			var stack []ast.Node
+			ast.Inspect(d, func(n ast.Node) bool {
+				if n == nil {
+					stack = stack[:len(stack)-1]
+					return true
+				}
+				var parent ast.Node
+				if len(stack) > 0 {
+					parent = stack[len(stack)-1]
+				}
+				stack = append(stack, n)
+				switch x := n.(type) {
+				case *ast.TypeSpec:
+					skip[x.Name] = true
+				case *ast.StarExpr:
+					if id, ok := x.X.(*ast.Ident); ok {
+						skip[id] = true // *T
+					}
+				case *ast.SelectorExpr:
+					skip[x.Sel] = true
+					if x.Sel.Name == mutexField {
+						own := false
+						if id, ok := x.X.(*ast.Ident); ok && recv != "" && id.Name == recv && guarded[rtyp] {
+							own = true
+						}
+						if !own {
+							out = append(out, [3]string{"*", where, "foreign-use"})
+						}
+					}
+				case *ast.Field:
+					for _, nm := range x.Names {
+						skip[nm] = true
+					}
+				case *ast.KeyValueExpr:
+					if id, ok := x.Key.(*ast.Ident); ok {
+						if _, inLit := parent.(*ast.CompositeLit); inLit {
+							skip[id] = true // a field name (or a map key that is a plain identifier)
+						}
+					}
+				case *ast.CompositeLit:
+					id, ok := x.Type.(*ast.Ident)
+					if !ok || !guarded[id.Name] {
+						break
+					}
+					skip[id] = true
+					what := "literal:missing"
+					for _, el := range x.Elts {
+						kv, isKV := el.(*ast.KeyValueExpr)
+						if !isKV {
+							what = "literal:other" // positional
+							break
+						}
+						if k, ok := kv.Key.(*ast.Ident); ok && k.Name == mutexField {
+							what = initKind(kv.Value)
+						}
+					}
+					out = append(out, [3]string{id.Name, where, what})
+				case *ast.Ident:
+					if guarded[x.Name] && !skip[x] {
+						out = append(out, [3]string{x.Name, where, "zero:" + strings.TrimPrefix(fmt.Sprintf("%T", parent), "*ast.")})
+					}
+				}
+				return true
+			})
+		}
+	}
+	return out
 }
